@@ -220,10 +220,11 @@ CMR_ERROR CMRequimodularTest(CMR* cmr, CMR_INTMAT* matrix, bool* pisEquimodular,
     goto cleanup;
   }
 
-  CMR_CALL( CMRtuTest(cmr, transposed_pseudo_inverse, pisEquimodular, NULL, NULL, &params->tu,
-    stats ? &stats->tu : NULL, remainingTime) );
+  /* In case of an error (e.g., a timeout) we free everything below before passing it on. */
+  result = CMRtuTest(cmr, transposed_pseudo_inverse, pisEquimodular, NULL, NULL, &params->tu,
+    stats ? &stats->tu : NULL, remainingTime);
 
-  if (pgcdDet)
+  if (result == CMR_OKAY && pgcdDet)
     *pgcdDet = (*pisEquimodular) ? gcdDet : 0;
 
   CMRchrmatFree(cmr, &transposed_pseudo_inverse);
@@ -265,8 +266,9 @@ CMR_ERROR CMRequimodularTestStrong(CMR* cmr, CMR_INTMAT* matrix, bool* pisStrong
   {
     CMR_INTMAT* transpose = NULL;
     CMR_CALL( CMRintmatTranspose(cmr, matrix, &transpose) );
-    CMR_CALL( CMRequimodularTest(cmr, transpose, pisStronglyEquimodular, pgcdDet, params, stats, remainingTime) );
+    CMR_ERROR error = CMRequimodularTest(cmr, transpose, pisStronglyEquimodular, pgcdDet, params, stats, remainingTime);
     CMR_CALL( CMRintmatFree(cmr, &transpose) );
+    CMR_CALL( error );
   }
 
   return CMR_OKAY;
